@@ -31,7 +31,7 @@ PROPS = {
         technique='Lean 4 proof (AND/OR/negation semantics by induction over term sets) + model/implementation correspondence with a declarative query oracle',
     ),
     'C04': dict(
-        areas=[('rank', 10000, 1500000), ('filter', 6000, 600000)],
+        areas=[('rank', 10000, 1500000), ('filter', 6000, 600000), ('matcher', 500, 30000)],
         rule=PAT_RULE + '; rank area: seeded rank quadruples (extremes 0/65535, ties), locally sorted lists probed at random '
              'and sequential positions, chunk-list scripts (pushes, snapshots with/without --tail, pass-through probes), '
              'partition counts 1..40 over 0..300 chunks',
